@@ -321,7 +321,7 @@ func (p *prog) experiment(op *opSpec) {
 	pre := p.A.ReadState()
 	fpg, netSize := nz(pre.State.FeePerGas()), pre.ValidatorsCache.NetworkSize()
 	var prefix []*prefixItem
-	drain := !op.pinNonce && fpg.Sign() > 0 && p.chance("drainShape", 2)
+	drain := !op.pinNonce && fpg.Sign() > 0 && !p.chance("noDrainShape", 96)
 	if drain {
 		op.nonceOffset = 1
 	} else {
